@@ -176,6 +176,20 @@ CLAIMED.update({
               "5/C17", "partial: file outputs (wave module, file names, cropped TextGrids) and the sine generator's values are evaluated, not modelled."),
 })
 
+CLAIMED.update({
+    "C18": _c("Proof: Props/C18.v shows for every recording, target time and step that findNearestZeroCrossing terminates (the "
+              "fuel bound of the loop model is never exhausted), that whatever it returns is on a sample position inside the "
+              "recording and is a genuine crossing (the sample is zero or differs in sign from a neighbour), and that it otherwise "
+              "raises ArgumentError exactly when the step holds fewer than two samples and FindZeroCrossingError in every other "
+              "case.  Results on in-memory and file-backed recordings are compared with the model on the exact time grid and judged "
+              "by the statement of the property inside Coq on all grids, each call under an alarm; tgBoundariesToZeroCrossings "
+              "(only timestamps change, each to a crossing; order, counts, labels kept) and audioSplice (durations agree within a "
+              "sample, one new interval over the inserted audio, earlier entries unchanged, later labels kept) are judged on the "
+              "real objects.",
+              "Coq proof (fuel/measure argument for termination, window-to-recording lemma for soundness) + in-Coq differential correspondence and oracle + evaluation of the composite scripts",
+              "5/C18", "partial: tgBoundariesToZeroCrossings and audioSplice are evaluated, not modelled; at non-dyadic rates only the outcome is judged (binary64 window bookkeeping)."),
+})
+
 PENDING = {}
 
 
